@@ -212,11 +212,25 @@ def run(ctx):
         ctx.paths += len(ps)
         tnr = rd.term(nrc[0])
         tys = tnr.get("arg_tys") or []
+        # the arguments, with a struct of the crate that bundles them (a `RequestHead`) taken apart into its fields
+        def leaves_of(tys_, vals_):
+            out_t, out_v = [], []
+            for ty_, v_ in zip(tys_, vals_):
+                a_ = facts.adts.get(ty_)
+                if a_ is not None and a_["kind"] == "Struct" and ty_ not in (METHOD, HV) and not ty_.startswith("std::"):
+                    for fl_ in a_["variants"][0]["fields"]:
+                        out_t.append(fl_["ty"])
+                        out_v.append(v_[3].get(fl_["name"], ("unknown",)) if v_ is not None and v_[0] == "agg" and isinstance(v_[3], dict) else ("unknown",))
+                else:
+                    out_t.append(ty_); out_v.append(v_)
+            return out_t, out_v
+        tys, _ = leaves_of(tys, [None] * len(tys))
         idx = {"method": [i for i, x in enumerate(tys) if x == METHOD], "path": [i for i, x in enumerate(tys) if x == "std::string::String"], "version": [i for i, x in enumerate(tys) if x == HV]}
         ok_args = bool(ps) and all(len(v) == 1 for v in idx.values())
         bad = []
         for p in ps[:400]:
             args = [absint.deep(p.state, p.state.operand(a)) for a in tnr["args"]]
+            _, args = leaves_of(tnr.get("arg_tys") or [], args)
             nexts = []
             for what in ("method", "path", "version"):
                 if not idx[what]:
